@@ -5,6 +5,7 @@ CONSTANTS
   BinOps = {"add"}
   UnOps = {"neg"}
   WithStubFacts = FALSE
+  Fixed = {}
   WithGetattr = FALSE
   BugNoReflected = TRUE
 INVARIANT DiagnosedIffRaises
